@@ -37,7 +37,10 @@ fn cfg6(tier: Tier) -> ParamCfg {
 fn forms_case(tier: Tier) -> BoxedStrategy<FormsCase> {
     let test = (0usize..EPS.len(), any::<[u16; 5]>(), any::<i16>(), 0u8..24, any::<u16>(), 0u8..4)
         .prop_map(|(e, s, step, corr, cpos, cwhich)| TestSpec { ep: EPS[e], a: s[0], b: s[1], c: s[2], p: s[3], tgt: s[4], step, corr, cpos, cwhich });
-    cfg6(tier).strategy().prop_flat_map(move |ps| {
+    // one case in four: primes from 20 bits and plain moduli up to 44 bits, so that t exceeds some q_i (no fast plain lift;
+    // the scaling code then handles addends that are not reduced modulo q_i)
+    let wide = ParamCfg { schemes: vec![Scheme::BFV, Scheme::BGV], bits_lo: 20, t_bits_hi: 44, ..cfg6(tier) };
+    prop_oneof![3 => cfg6(tier).strategy(), 1 => wide.strategy()].prop_flat_map(move |ps| {
         let n = 1usize << ps.logn;
         (Just(ps), proptest::collection::vec((0u8..10, any::<u16>(), any::<u16>()), 0..10), proptest::collection::vec((any::<u8>(), any::<u64>()), n),
          proptest::collection::vec((any::<i32>(), any::<i32>()), n / 2), proptest::collection::vec(test.clone(), 1..6))
